@@ -1,5 +1,6 @@
 """C15 — response handling."""
 import numpy as np
+import pandas as pd
 from hypothesis import strategies as st
 
 from vf import core, frames, rich
@@ -23,9 +24,17 @@ ASSUMPTIONS = [
 
 VALID = ["y", "x", "k", "I(x > 0)", "f", "g", "h", "u", "g[g1]", "g['g1']", 'h["lo"]', "w['a b']", 'w["c d"]', "w['sí']", 'w["sí"]', "w['C:\\new\\table']", "f[zz]", "np.abs(y)", "binary(g, 'g1')",
          "C(k)", "C(h)", "C(f)", "d['10']", 'd["2"]', "d[1]" if False else "d['1']", "prop(s, n)", "p(s, n)", "proportion(s, n)", "prop(s, 40)", "p(s, 40)", "prop(sb, 5)", "p(sb, 1)", "prop(s8, 200)", "proportion(s8, n)",
-         "c1", "C(c1)", None]
+         "c1", "C(c1)", "sign2(x)", "sign2s(z)", "sign2c(x)", None]  # calls of the caller's functions that return two categories
 ONE_ROW = ["y", "np.abs(y)", "I(x > 0)", "f", "g", "g['g1']", "w['a b']", "prop(s, n)", "p(s, 40)", "prop(sb, 5)", "c1"]
-INVALID = ["y + x", "y:x", "y*x", "1", "0", "offset(y)", "y / x", "(y | g)", "2", "x[a]", "k['10']", "k[\"2\"]"]  # a level on a numeric variable
+INVALID = ["y + x", "y:x", "y*x", "1", "0", "offset(y)", "y / x", "(y | g)", "2", "x[a]", "k['10']", "k[\"2\"]", "y + (1 | g)", "(1 | g) + y", "y + (x | g)"]  # a level on a numeric variable
+
+
+MEDIAN_CUT = 0.25
+SIGN_FUNCTIONS = {
+    "sign2": lambda v: np.where(np.asarray(v, dtype=float) > MEDIAN_CUT, "pos", "neg"),
+    "sign2s": lambda v: pd.Series(np.where(np.asarray(v, dtype=float) > MEDIAN_CUT, "pos", "neg"), index=v.index),
+    "sign2c": lambda v: pd.Categorical(np.where(np.asarray(v, dtype=float) > MEDIAN_CUT, "pos", "neg"), categories=["pos", "neg"], ordered=True),
+}
 
 
 @st.composite
@@ -89,6 +98,10 @@ def expected_response(resp, frame, spec):
         name, lv = resp[:-1].split("[")
         lv = lv.strip("'\"")
         return "categoric", np.array([1 if v == lv else 0 for v in col(name).tolist()]), None
+    if resp.startswith("sign2"):
+        vals = ["pos" if v > MEDIAN_CUT else "neg" for v in col(resp[resp.index("(") + 1:-1]).tolist()]
+        levels = ["pos", "neg"] if resp.startswith("sign2c") else sorted(set(vals))  # sign2c declares its order
+        return "categoric", np.column_stack([[1 if v == l else 0 for v in vals] for l in levels]), levels
     if resp.startswith("binary("):
         return "numeric", np.array([1 if v == "g1" else 0 for v in col("g").tolist()]), None
     if resp.split("(")[0] in ("prop", "p", "proportion"):
@@ -108,6 +121,7 @@ def judge(ctx, case):
     d, spec, resp = case["design"], case["frame"], case["response"]
     frame = frames.build(spec)
     ns = rich.namespace_for(frame)
+    ns.update(SIGN_FUNCTIONS)
     rhs = d["formula"]
     formula = rhs if resp is None else f"{resp} ~ {rhs}"
     has_cat = any(a in ("f", "g", "h", "u") or a.startswith(("C(", "T(", "S(")) for t in d["terms"] + [e for g in d["groups"] for e in g["effects"]] for a in t)
